@@ -52,6 +52,8 @@ KINDS = {
     "var_readable": lambda: Item("var_readable", [("color", "var(--ok)", False)], needs=("--ok",)),
     "important": lambda: Item("important", [("color", "#777", True)]),
     "repeated": lambda: Item("repeated", [("color", "#000", False), ("margin", "0", False), ("color", "#777", False)]),
+    "repeated_after_bg": lambda: Item("repeated_after_bg", [("color", "#333", False), ("background-color", "#fff", False), ("color", "#999", False)]),
+    "repeated_bg": lambda: Item("repeated_bg", [("background-color", "#000", False), ("color", "#ccc", False), ("background-color", "#fff", False)]),
     "root_literal": lambda: Item("root_literal", [("color", "#999", False)], selector=":root"),
     "html_literal": lambda: Item("html_literal", [("color", "#999", False), ("background-color", "#fff", False)], selector="html"),
     "sp_rgb": lambda: Item("sp_rgb", [("color", "rgb(119, 119, 119)", False)]),
